@@ -267,6 +267,11 @@ func run(c *hc.Ctx) error {
 			if (i/4)%2 == 0 || len(x.aDraws) == 0 {
 				x.aDraws = append(x.aDraws, byLen(249+(i/8)%8))
 			}
+			if len(x.aDraws) > 1 {
+				// weak first draws exercise the re-draw loop of the in-tree TestServerRNG.GA (the
+				// harness RNG has its own loop, which proves nothing about the repository)
+				x.primeIx = -1
+			}
 		case 3: // both small; every third of these: a shared key with a leading zero byte
 			x.bDir = byLen(249 + r.Intn(8))
 			x.aDraws = []int{byLen(249 + r.Intn(8))}
